@@ -77,7 +77,14 @@ func (l *LookupOptions) String() string {
 		b.WriteString("nil")
 	}
 	b.WriteString(fmt.Sprintf(", LatestAnchor=%v", l.LatestAnchor))
-	b.WriteString(fmt.Sprintf(", FilterOptions=%s>", l.FilterOptions))
+	b.WriteString(fmt.Sprintf(", FilterOptions=%s", l.FilterOptions))
+	if l.Offset != 0 {
+		// Printed only when set: the text (and therefore the UUID) of options
+		// without an offset stays what it has always been.
+		b.WriteString(", offset=")
+		b.WriteString(strconv.Itoa(l.Offset))
+	}
+	b.WriteString(">")
 	return b.String()
 }
 
